@@ -1,5 +1,6 @@
 // harness.cc -- plan interpreter, shadow heap and the common oracles O1..O5 (DESIGN.md section 5).
 #include "harness.h"
+#include <algorithm>
 #include <errno.h>
 #include <stdio.h>
 #include <stdlib.h>
@@ -674,7 +675,33 @@ static void exec_op(const Op& op, int idx) {
   if (H.plan->auto_advance_every && (H.ops_executed % H.plan->auto_advance_every) == 0) clock_advance_ms(H.plan->auto_advance_ms);
   if (c <= OP_cfree) H.work_hash += mix64(((uint64_t)c << 32) ^ (uint64_t)(uint32_t)op.slot, op.a ^ (op.b << 20) ^ (op.c << 40));
   if (c == OP_collect && op.a == 0) H.activity_rounds++;
-  if (c >= OP_malloc && c <= OP_new_aligned_nothrow) do_alloc(op);
+  if (c == OP_fill_page) {
+    // allocate blocks of size a into the empty slots of [slot, slot+c) until a block lands in another 64 KiB page than the first one of
+    // this operation (i.e. the page in use was filled up and a new one was opened), at most b blocks
+    uintptr_t first_page = 0; uint64_t n = 0;
+    for (int sl = op.slot; sl >= 0 && sl < op.slot + (int)op.c && sl < (int)H.slots.size() && n < op.b; sl++) {
+      if (H.slots[sl] != nullptr || g_busy[sl]) continue;
+      Op o; o.code = OP_malloc; o.slot = sl; o.a = op.a; o.hslot = op.hslot; o.flags = op.flags;
+      sched_call_begin(); do_alloc(o); n++;
+      if (H.slots[sl] == nullptr) break;
+      uintptr_t pg = (uintptr_t)H.slots[sl]->p >> 16;
+      if (first_page == 0) first_page = pg; else if (pg != first_page) break;
+    }
+  }
+  else if (c == OP_free_page) {
+    // free the blocks of this thread that lie in the same 64 KiB page as the block in `slot` (and have its size class), leaving `a` of them live
+    Block* ref = (op.slot >= 0 && op.slot < (int)H.slots.size()) ? H.slots[op.slot] : nullptr;
+    if (!ref) { H.ops_noop++; }
+    else {
+      std::vector<int> victims; const uintptr_t pg = (uintptr_t)ref->p >> 16; const size_t us = ref->usable;
+      for (size_t sl = 0; sl < H.slots.size(); sl++) { Block* b = H.slots[sl]; if (b && !g_busy[sl] && b->prog == T->prog && ((uintptr_t)b->p >> 16) == pg && b->usable == us) victims.push_back((int)sl); }
+      if (op.b & 1) std::reverse(victims.begin(), victims.end());
+      size_t nfree = victims.size() > op.a ? victims.size() - (size_t)op.a : 0;
+      if (op.c > 0 && nfree > op.c) nfree = (size_t)op.c;      // c: free at most that many
+      for (size_t i = 0; i < nfree; i++) { Op o; o.code = OP_free; o.slot = victims[i]; sched_call_begin(); do_free(o); }
+    }
+  }
+  else if (c >= OP_malloc && c <= OP_new_aligned_nothrow) do_alloc(op);
   else if (c >= OP_realloc && c <= OP_expand) do_realloc(op);
   else if (c >= OP_free && c <= OP_cfree) do_free(op);
   else if (c >= OP_heap_new && c <= OP_collect_reduce) do_heap_op(op);
